@@ -46,8 +46,15 @@ Definition status_eqb (a b : status) : bool :=
   | _, _ => false
   end.
 
-(* p_defines: for a CRD object, the kind it defines (None: group/kind missing) *)
-Record payload := mkPayload { p_status : status; p_defines : option nat }.
+(* p_defines: for a CRD object, the kind it defines (None: group/kind missing).
+   p_slow: the status computation of this version does not return while its
+   informer runs (a cluster lookup in flight); when the informer is stopped or
+   the reporter cancelled it fails with the context error, which
+   handleFatalError ignores (context.Canceled / DeadlineExceeded): no event, no
+   hook, no stop.  The handler goroutine of that informer is blocked meanwhile;
+   later notifications of the same target before its stop are not modelled (the
+   harness issues none). *)
+Record payload := mkPayload { p_status : status; p_defines : option nat; p_slow : bool }.
 
 Inductive scope := ScopeRoot | ScopeNamespace.
 Record target := mkTarget { t_gk : nat; t_ns : nat }.   (* t_ns = 0: all namespaces *)
@@ -141,7 +148,7 @@ Definition reset_mapper (c : config) (st : rstate) : rstate := set_mapper st (se
 (* ---- informer bookkeeping ----------------------------------------------- *)
 (* AddFunc calls of a freshly started informer for the objects it lists *)
 Definition list_events (c : config) (st : rstate) (t : target) : list event :=
-  flat_map (fun kp => if covers t (fst kp) && allowed c (fst kp)
+  flat_map (fun kp => if covers t (fst kp) && allowed c (fst kp) && negb (p_slow (snd kp))
                       then [EUpdate (fst kp) (p_status (snd kp))] else [])
            (r_cluster st).
 
@@ -194,6 +201,7 @@ Definition on_crd_delete (c : config) (st : rstate) (p : payload) : rstate :=
 Definition handle_upsert (c : config) (st : rstate) (id : oid) (p : payload) : rstate :=
   if r_stopped st then st
   else if negb (allowed c id) then st
+  else if p_slow p then st      (* read cancelled later: context error, ignored *)
   else
     let st1 := emit st [EUpdate id (p_status p)] in
     if is_ns id then on_ns_upsert c st1 (o_name id)
